@@ -53,3 +53,20 @@ package requests
 //@ nomod
 //@ prop C14
 //@ ensures[the-read-body] result == r.body
+
+// the accessors of a Result are getters over fields that are written once, when the result is made (scan below):
+// two calls on the same result agree, and nothing is modified
+//@ iface Result.Error
+//@ prop C14
+//@ pure
+//@ iface Result.StatusCode
+//@ prop C14
+//@ pure
+//@ iface Result.Body
+//@ prop C14
+//@ pure
+//@ iface Result.Headers
+//@ prop C14
+//@ pure
+//@ prop C14
+//@ scan[result-fields-written-only-where-the-result-is-made] field-writers result.* pkg/requests.(*builder).do
